@@ -419,7 +419,7 @@ theorem reduce_noCrash : ∀ (fuel : Nat) (tm : TM) (t : TRef) (e : Err), free c
           simp only [hl] at h
           have hfresh := lookup_none cfg hl
           have hni : i ∉ tm := fun hm => hfresh i hm rfl
-          have hinv1 : Inv cfg (tm ++ [i]) := inv_append_one cfg hinv hn hfresh
+          have hinv1 : Inv cfg (tm ++ [i]) := inv_append_one cfg hinv hce hfresh
           have hf1 : free cfg (tm ++ [i]) < fuel := by
             have := free_lt cfg (nameOf_lt cfg hn) hni
             omega
